@@ -86,6 +86,14 @@ def run(ck: Checker):
         ret = [n for n in walk_shallow_func(r.node) if isinstance(n, ast.Return)]
         if not (ret and isinstance(ret[0].value, ast.Tuple) and is_name(ret[0].value.elts[0], names[0]) and isinstance(ret[0].value.elts[1], ast.Call) and dotted(ret[0].value.elts[1].func) == 'decode' and is_name(ret[0].value.elts[1].args[1], names[2])):
             probs.append('read_record does not return (first field, decode(payload, third field))')
+    # the poll timeout may only cover the read that STARTS a record: callers treat TimeoutError as "no record yet"
+    # and read a header again, so a timeout after the header was consumed would parse payload bytes as a header
+    reads = [n for n in walk_deep_func(r.node) if isinstance(n, ast.Call) and method_of(n)[1] in ('readuntil', 'readline', 'readexactly', 'read')]
+    wf = [n for n in walk_deep_func(r.node) if isinstance(n, ast.Call) and (dotted(n.func) or '').endswith('wait_for')]
+    for wcall in wf:
+        inner = [x for x in ast.walk(wcall) if x in reads]
+        if any(method_of(x)[1] in ('readexactly', 'read') for x in inner) or (reads and inner and inner[0] is not min(reads, key=lambda c: (c.lineno, c.col_offset))):
+            probs.append('a timeout can expire after the header of a record has been consumed (it wraps the payload read): the caller then reads the payload bytes as a header and the connection loses framing for every request in flight')
     ck.ob('C18-1', w, (w.node.lineno, 'write_record/read_record'), not probs, '; '.join(probs) if probs else 'header `<id> <len(bytes)> <encoder>\\n` + the same bytes; reader: to LF, split into the same three fields, readexactly(int(len)), decode with the transmitted encoder')
     # ------------------------------------------------------------------ C18-2
     enc, dec = mod.func('encode'), mod.func('decode')
@@ -225,7 +233,18 @@ def run(ck: Checker):
                 wraps = [k for k in cfg.nodes if isinstance(k.ast, ast.Assign) and isinstance(k.ast.value, ast.Call) and (dotted(k.ast.value.func) or '').endswith('RemoteException') and k.ast.value.args and is_name(k.ast.value.args[0], d.ast.name) and is_name(k.ast.targets[0], aw[0].ast.targets[0].id)]
                 if not wraps:
                     probs.append('the caught exception is not turned into RemoteException(e) as this request\'s response')
-    ck.ob('C18-6', f, aw[0].ast, not probs, '; '.join(probs) if probs else 'a failing handler yields RemoteException(e) as the response of that request; the loop goes on')
+    # the dispatch (route lookup, argument binding) must run inside the request's task, not in the receive loop:
+    # handle_request has to be a coroutine function (calling it cannot raise) or the call must be contained
+    hrf = mod.func('SocketApplication.handle_request')
+    krf = mod.func('SocketServer._handle_connection._keep_receiving')
+    hcalls = [n for n in walk_shallow_func(krf.node) if isinstance(n, ast.Call) and (dotted(n.func) or '').endswith('handle_request')]
+    if not hcalls:
+        probs.append('the receive loop does not dispatch through app.handle_request')
+    elif not hrf.is_async:
+        contained = any(isinstance(t_, ast.Try) and any(x is hcalls[0] for b in t_.body for x in ast.walk(b)) and any(h.type is None or 'Exception' in norm_text(h.type) for h in t_.handlers) for t_ in walk_shallow_func(krf.node))
+        if not contained:
+            probs.append('handle_request is a plain function called in the receive loop: a dispatch error (unknown route, wrong arity) is raised there instead of inside the request\'s task — the connection is dropped, the offending request never gets its exception and the other requests in flight lose their responses')
+    ck.ob('C18-6', f, aw[0].ast, not probs, '; '.join(probs) if probs else 'dispatch runs inside the request\'s task; a failing handler yields RemoteException(e) as the response of that request; the loop goes on')
     # ------------------------------------------------------------------ C18-7
     outer = mod.func('SocketClient.stream')
     m = fifo.discover(ck.repo, outer, func_name='self._enqueue', in_name='data')
